@@ -107,8 +107,143 @@ def rfc3986(base_dir, ref):
     return "/" + "/".join(out)
 
 
+def consumers(ctx):
+    """the package loader and writer, which USE the part-name algebra: a relationship Target in any of the reference
+    shapes of the property (relative with dot segments, root-absolute, root-absolute with dot segments) leads to the part
+    RFC 3986 resolution names, and the Targets written after parts were renamed resolve to the parts' current names"""
+    import io
+    import re
+    import zipfile
+
+    from PIL import Image
+    from pptx import Presentation
+    from pptx.opc.packuri import PackURI
+
+    rng = ctx.rng
+    b = io.BytesIO(); Image.new("RGB", (4, 4), (9, 200, 9)).save(b, "PNG")
+    prs = Presentation()
+    for _ in range(3):
+        prs.slides.add_slide(prs.slide_layouts[6]).shapes.add_picture(io.BytesIO(b.getvalue()), 0, 0)
+    base = io.BytesIO(); prs.save(base)
+    zin = zipfile.ZipFile(io.BytesIO(base.getvalue()))
+
+    def variants(src_dir, target_abs):
+        """reference strings that all resolve to `target_abs` from `src_dir`"""
+        rel = PackURI(target_abs).relative_ref(src_dir)
+        segs = src_dir.strip("/").split("/") if src_dir != "/" else []
+        out = [rel, target_abs, "./" + rel]
+        d, f = target_abs.rsplit("/", 1)
+        out.append(d + "/./" + f)
+        if d:
+            out.append(d + "/../" + d.rsplit("/", 1)[-1] + "/" + f)
+        if segs:
+            out.append("../" + segs[-1] + "/" + rel)
+            out.append("/" + "/".join(segs) + "/" + rel if not rel.startswith("/") else rel)
+        return [o for o in out if rfc3986(src_dir, o) == target_abs]
+
+    n_cases = 12 if ctx.quick else 120
+    for k in range(n_cases):
+        # rewrite some Targets of the presentation's and the slides' relationship items
+        chosen = {}
+        out = io.BytesIO()
+        with zipfile.ZipFile(out, "w", zipfile.ZIP_DEFLATED) as zo:
+            for name in zin.namelist():
+                data = zin.read(name)
+                if name.endswith(".rels") and name != "_rels/.rels" and (name.startswith("ppt/_rels/") or name.startswith("ppt/slides/_rels/")):
+                    d_, f_ = name.rsplit("_rels/", 1)
+                    src = "/" + d_ + f_[: -len(".rels")]
+                    src_dir = src.rsplit("/", 1)[0] or "/"
+                    text = data.decode("utf-8")
+
+                    def sub(m):
+                        tgt = m.group(2)
+                        if "TargetMode" in m.group(0):
+                            return m.group(0)
+                        absn = rfc3986(src_dir, tgt)
+                        if absn is None or rng.random() < 0.4:
+                            return m.group(0)
+                        vs = variants(src_dir, absn)
+                        if not vs:
+                            return m.group(0)
+                        v = rng.choice(vs)
+                        chosen[(src, m.group(1))] = (v, absn)
+                        return m.group(0).replace('Target="%s"' % tgt, 'Target="%s"' % v)
+
+                    text = re.sub(r'<Relationship [^>]*?Id="([^"]+)"[^>]*?Target="([^"]+)"[^>]*?/>', sub, text)
+                    # attribute order varies: handle Target before Id as well
+                    data = text.encode("utf-8")
+                zo.writestr(name, data)
+        case = {"targets": {f"{s_}#{r_}": v for (s_, r_), (v, _) in chosen.items()}}
+        ctx.case(key=("consumer", k))
+        try:
+            p2 = Presentation(io.BytesIO(out.getvalue()))
+        except Exception as e:  # noqa
+            ctx.fail("loader:raises", f"opening a package whose Targets are {sorted(set(v for v, _ in chosen.values()))[:6]} raised {type(e).__name__}: {str(e)[:120]}", case)
+            continue
+        parts = {str(pt.partname): pt for pt in p2.part.package.iter_parts()}
+        for (src, rid), (v, absn) in chosen.items():
+            sp = parts.get(src)
+            ctx.count("consumer-target-" + ("absolute" if v.startswith("/") else "relative") + ("-dotted" if "./" in v else ""))
+            if sp is None:
+                ctx.fail("loader:source-part-missing", f"part {src} was not loaded (a Target leading to it was written as another reference shape)", case)
+                continue
+            try:
+                got = str(sp.rels[rid].target_part.partname)
+            except KeyError:
+                got = None
+            if got != absn:
+                ctx.fail("loader:target-resolution", f"{src} {rid}: Target {v!r} resolves to {absn} (RFC 3986); the loaded package relates {got}", case)
+        try:
+            nsl = len(p2.slides)
+        except Exception as e:  # noqa
+            nsl = f"{type(e).__name__}: {str(e)[:80]}"
+        if nsl != 3:
+            ctx.fail("loader:target-resolution", f"slides loaded: {nsl} instead of 3 with Targets {case['targets']}", case)
+    # written Targets follow renamed parts: scramble the slide part names, save (Targets serialised once), let the first
+    # access to the slide collection rename the parts, save again
+    for k in range(4 if ctx.quick else 40):
+        prs = Presentation(io.BytesIO(base.getvalue()))
+        nums = rng.sample(range(1, 12), 3)
+        for sld, i in zip(list(prs.slides), nums):
+            sld.part.partname = PackURI("/ppt/slides/slide%d.xml" % i)
+            sld.shapes.add_textbox(0, 0, 9, 9).text_frame.text = "S%d" % i
+        b1 = io.BytesIO(); prs.save(b1)
+        p2 = Presentation(io.BytesIO(b1.getvalue()))
+        b2 = io.BytesIO(); p2.save(b2)           # before any access to .slides
+        texts = [[sh.text_frame.text for sh in s_.shapes if sh.has_text_frame] for s_ in p2.slides]   # renames the parts
+        b3 = io.BytesIO(); p2.save(b3)
+        case = {"slide-numbers": nums}
+        ctx.case(key=("consumer-rename", k))
+        for label, blob in (("saved before the slides were accessed", b2), ("saved after the parts were renamed", b3)):
+            z = zipfile.ZipFile(io.BytesIO(blob.getvalue()))
+            names_ = set(z.namelist())
+            for n in names_:
+                if not n.endswith(".rels"):
+                    continue
+                d_, f_ = n.rsplit("_rels/", 1)
+                src = "/" + d_ + f_[: -len(".rels")] if n != "_rels/.rels" else "/"
+                src_dir = (src.rsplit("/", 1)[0] or "/") if src != "/" else "/"
+                for m in re.finditer(r'<Relationship [^>]*?/>', z.read(n).decode("utf-8")):
+                    if "TargetMode=\"External\"" in m.group(0):
+                        continue
+                    tgt = re.search(r'Target="([^"]+)"', m.group(0)).group(1)
+                    absn = rfc3986(src_dir, tgt)
+                    if absn is None or absn[1:] not in names_:
+                        ctx.fail("writer:stale-target", f"{label}: {n} holds Target {tgt!r}, which resolves to {absn}: no such member", case)
+            try:
+                p3 = Presentation(io.BytesIO(blob.getvalue()))
+                t3 = [[sh.text_frame.text for sh in s_.shapes if sh.has_text_frame] for s_ in p3.slides]
+            except Exception as e:  # noqa
+                ctx.fail("writer:stale-target", f"{label}: re-opening raised {type(e).__name__}: {str(e)[:100]}", case)
+                continue
+            if t3 != texts:
+                ctx.fail("writer:stale-target", f"{label}: slides read {t3} after re-opening, {texts} before", case)
+
+
 def correspond(ctx):
     from pptx.opc.packuri import PackURI
+
+    consumers(ctx)
 
     rng = ctx.rng
     lines, impl, cases = [], [], []
